@@ -10,45 +10,141 @@ sys.path.insert(0, os.path.dirname(os.path.abspath(__file__)))
 import vlib
 
 
+def balanced(s, i):
+    """s[i] == '(' : index just after the matching ')'"""
+    d = 0
+    for j in range(i, len(s)):
+        if s[j] == '(': d += 1
+        elif s[j] == ')':
+            d -= 1
+            if d == 0: return j + 1
+    return len(s)
+
+
+SHORTCUT = re.compile(r'\(\s*\(((?:\s*code\s*==\s*MIR_\w+\s*\|\|)*\s*code\s*==\s*MIR_\w+\s*)\)\s*&&\s*insn->ops\[2\]\.mode\s*==\s*'
+                      r'MIR_OP_INT\s*&&\s*insn->ops\[2\]\.u\.i\s*==\s*(\d+)\s*\)')
+# (code == A || ...) && insn->ops[2].mode == MIR_OP_INT && insn->ops[2].u.i > 1 && (i & (i - 1)) == 0
+POW2 = re.compile(r'^\(\s*\(((?:\s*code\s*==\s*MIR_\w+\s*\|\|)*\s*code\s*==\s*MIR_\w+\s*)\)\s*&&\s*insn->ops\[2\]\.mode\s*==\s*'
+                  r'MIR_OP_INT\s*&&\s*insn->ops\[2\]\.u\.i\s*>\s*1\s*&&\s*\(\s*insn->ops\[2\]\.u\.i\s*&\s*\(\s*insn->ops\[2\]\.u\.i\s*-\s*1\s*\)\s*\)'
+                  r'\s*==\s*0\s*\)$')
+# codes a rewrite site of simplify_func may create / assign without being an algebraic rewrite:
+# ext_code (parameter extension), code (mem-mem move split), MIR_ADD[S] (alloca consolidation), MIR_MOV
+# (the shortcut), MIR_JMP (bt/bf on 0/1), rev_code (branch reversal)
+KNOWN_NEW = {'ext_code', 'code', 'MIR_PTR32 ? MIR_ADDS : MIR_ADD', 'MIR_MOV', 'MIR_JMP'}
+KNOWN_ASSIGN = {'rev_code'}
+
+
 def extract(repo=None):
+    """-> (found {0: [...], 1: [...]} or None, strength [(from, to)], message).
+    Every place of simplify_func that looks at an immediate second source of an insn, assigns insn->code or creates
+    an insn must be one of the recognised shapes; anything else makes the construct 'not recognised' (the
+    generated lists then contain INVALID_INSN and the theorems fail, see checks/c04.py)."""
     repo = repo or vlib.REPO
     src = open(os.path.join(repo, 'mir.c')).read()
     src = re.sub(r'/\*.*?\*/', ' ', src, flags=re.S)
+    src = re.sub(r'//[^\n]*', ' ', src)
     m = re.search(r'static int simplify_func\s*\([^)]*\)\s*\{.*?\n\}\n', src, re.S)
     if not m:
-        return None, 'simplify_func not found'
+        return None, [], 'simplify_func not found'
     body = m.group(0)
-    # ((code == A || code == B ...) && insn->ops[2].mode == MIR_OP_INT && insn->ops[2].u.i == K)
-    pat = re.compile(r'\(\s*\(((?:\s*code\s*==\s*MIR_\w+\s*\|\|)*\s*code\s*==\s*MIR_\w+\s*)\)\s*&&\s*insn->ops\[2\]\.mode\s*==\s*'
-                     r'MIR_OP_INT\s*&&\s*insn->ops\[2\]\.u\.i\s*==\s*(\d+)\s*\)')
     found = {}
-    for g in pat.finditer(body):
+    for g in SHORTCUT.finditer(body):
         ops = re.findall(r'MIR_(\w+)', g.group(1))
         found.setdefault(int(g.group(2)), []).extend(ops)
     if set(found) != {0, 1}:
-        return None, 'shortcut condition not recognised (constants found: %s)' % sorted(found)
+        return None, [], 'shortcut condition not recognised (constants found: %s)' % sorted(found)
     # the replacement must be a plain MIR_MOV of ops[1] into ops[0]
     if not re.search(r'MIR_new_insn\s*\(\s*ctx\s*,\s*MIR_MOV\s*,\s*insn->ops\[0\]\s*,\s*insn->ops\[1\]\s*\)', body):
-        return None, 'replacement insn is not mov ops[0], ops[1]'
-    return found, 'ok: x op 1 -> mov for %s; x op 0 -> mov for %s' % (found[1], found[0])
+        return None, [], 'replacement insn is not mov ops[0], ops[1]'
+    # --- every condition that reads the immediate of the second source
+    strength, problems = [], []
+    shortcut_spans = [g.span() for g in SHORTCUT.finditer(body)]
+    pow2_bodies = []
+    for g in re.finditer(r'\bif\s*\(', body):
+        i = g.end() - 1
+        j = balanced(body, i)
+        cond = body[i:j]
+        if 'insn->ops[2]' not in cond:
+            continue
+        rest = cond
+        for a, b in shortcut_spans:          # remove the recognised shortcut sub-conditions
+            if i <= a and b <= j:
+                rest = rest.replace(body[a:b], ' ')
+        if 'insn->ops[2]' not in rest:
+            continue
+        pm = POW2.match(re.sub(r'\s+', ' ', cond).strip())
+        if not pm:
+            problems.append('condition on the second source not recognised: %s' % re.sub(r'\s+', ' ', cond)[:160])
+            continue
+        froms = re.findall(r'MIR_(\w+)', pm.group(1))
+        # the arm: { ... insn->code = code == A ? X : code == B ? Y : Z; insn->ops[2].u.i = sh; ... }
+        k = body.index('{', j)
+        d, e = 0, k
+        for e in range(k, len(body)):
+            if body[e] == '{': d += 1
+            elif body[e] == '}':
+                d -= 1
+                if d == 0: break
+        arm = body[k:e + 1]
+        pow2_bodies.append((k, e + 1))
+        am = re.search(r'insn->code\s*=\s*([^;]+);', arm)
+        ok_arm = am is not None and re.search(r'for\s*\(\s*int64_t\s+v\s*=\s*insn->ops\[2\]\.u\.i\s*;\s*v\s*>\s*1\s*;\s*v\s*>>=\s*1\s*\)\s*sh\+\+\s*;', arm) \
+            and re.search(r'insn->ops\[2\]\.u\.i\s*=\s*sh\s*;', arm) and len(re.findall(r'insn->ops\[', arm)) == 2
+        if not ok_arm:
+            problems.append('power-of-two arm not recognised: %s' % re.sub(r'\s+', ' ', arm)[:200])
+            continue
+        expr = am.group(1)
+        mapping = {}
+        default = None
+        parts = [x.strip() for x in expr.split(':')]
+        for x in parts[:-1]:
+            mm = re.match(r'^code\s*==\s*MIR_(\w+)\s*\?\s*MIR_(\w+)$', x)
+            if not mm:
+                problems.append('power-of-two arm: opcode map not recognised: %s' % expr); break
+            mapping[mm.group(1)] = mm.group(2)
+        else:
+            mm = re.match(r'^MIR_(\w+)$', parts[-1])
+            if not mm:
+                problems.append('power-of-two arm: opcode map not recognised: %s' % expr)
+            else:
+                default = mm.group(1)
+                for f in froms:
+                    strength.append((f, mapping.get(f, default)))
+    # --- every assignment to insn->code and every created insn must be a known one
+    for g in re.finditer(r'insn->code\s*=\s*([^;=][^;]*);', body):
+        if any(a <= g.start() < b for a, b in pow2_bodies):
+            continue
+        if g.group(1).strip() not in KNOWN_ASSIGN:
+            problems.append('assignment insn->code = %s not recognised' % g.group(1).strip()[:80])
+    for g in re.finditer(r'MIR_new_insn\s*\(\s*ctx\s*,\s*([^,]+),', body):
+        if re.sub(r'\s+', ' ', g.group(1)).strip() not in KNOWN_NEW:
+            problems.append('created insn with code %s not recognised' % g.group(1).strip()[:80])
+    if problems:
+        return None, strength, 'rewrite site of simplify_func not recognised: ' + '; '.join(problems[:3])
+    return found, strength, 'ok: x op 1 -> mov for %s; x op 0 -> mov for %s; x op 2^n -> shift for %s' % (found[1], found[0], strength)
 
 
 def regenerate():
-    found, msg = extract()
+    found, strength, msg = extract()
     d = os.path.join(vlib.COQDIR, 'gen')
     os.makedirs(d, exist_ok=True)
     path = os.path.join(d, 'C04Shortcuts.v')
+    st = '; '.join('(%s, %s)' % p for p in strength)
     if found is None:
         txt = ('(* GENERATED by tools/tr_c04_shortcuts.py: the construct was NOT recognised (%s) *)\n'
                'From MirV Require Import Mir.Opcode.\nRequire Import List. Import ListNotations.\n'
-               'Definition shortcut_one : list opcode := [INVALID_INSN].\nDefinition shortcut_zero : list opcode := [INVALID_INSN].\n' % msg)
+               'Definition shortcut_one : list opcode := [INVALID_INSN].\nDefinition shortcut_zero : list opcode := [INVALID_INSN].\n'
+               'Definition strength_pow2 : list (opcode * opcode) := [%s].\n' % (msg.replace('*)', '* )'), st))
     else:
         txt = ('(* GENERATED by tools/tr_c04_shortcuts.py from simplify_func in mir.c on every run. *)\n'
                'From MirV Require Import Mir.Opcode.\nRequire Import List. Import ListNotations.\n'
                '(* insn x, y, 1  is replaced by  mov x, y  for: *)\n'
                'Definition shortcut_one : list opcode := [%s].\n'
                '(* insn x, y, 0  is replaced by  mov x, y  for: *)\n'
-               'Definition shortcut_zero : list opcode := [%s].\n' % ('; '.join(found[1]), '; '.join(found[0])))
+               'Definition shortcut_zero : list opcode := [%s].\n'
+               '(* insn x, y, 2^n (immediate, n >= 1)  is replaced by  insn\' x, y, n  for the pairs (insn, insn\'): *)\n'
+               'Definition strength_pow2 : list (opcode * opcode) := [%s].\n'
+               % ('; '.join(found[1]), '; '.join(found[0]), st))
     old = open(path).read() if os.path.exists(path) else None
     if old != txt:
         with open(path + '.tmp%d' % os.getpid(), 'w') as f:
